@@ -29,6 +29,8 @@ struct Case {
     connects: Vec<(usize, usize)>,
     /// scale of the evaluation inputs (1e-39: intermediate values become subnormal)
     eval_scale: f32,
+    /// loop connections (outof, into, iterations) over trailing dense layers that carry dropout
+    loops: Vec<(usize, usize, usize)>,
 }
 
 const THREADS: [usize; 8] = [1, 2, 3, 5, 8, 16, 32, 48];
@@ -73,13 +75,23 @@ fn decode(tape: &[u32], tier: Tier) -> Case {
     }
     // optionally two more dense layers of the same width, so that skip connections with a shared source exist
     let mut connects = Vec::new();
+    let mut loops: Vec<(usize, usize, usize)> = Vec::new();
     if t.chance(1, 3) {
         let first = layers.len();
         push(&mut layers, &mut cur, LayerSpec::Dense { out: w, act: gen_act(&mut t, &o), bias: t.bool(), dropout: None });
         push(&mut layers, &mut cur, LayerSpec::Dense { out: w, act: gen_act(&mut t, &o), bias: t.bool(), dropout: None });
         // inputs of layers first, first+1 and the final layer all have width w
-        connects.push((first, first + 1));
-        connects.push((first, first + 2));
+        if t.bool() {
+            connects.push((first, first + 1));
+            connects.push((first, first + 2));
+        } else {
+            // instead: a loop connection over the first of them, which gets dropout (a layer evaluated several times
+            // per sample while the samples of a batch run in parallel)
+            if let LayerSpec::Dense { dropout, .. } = &mut layers[first] {
+                *dropout = Some(t.usize(200, 600) as u32);
+            }
+            loops.push((first, first, t.usize(1, 3)));
+        }
     }
     let out = t.usize(1, 4);
     push(&mut layers, &mut cur, LayerSpec::Dense { out, act: [ActK::Linear, ActK::Sigmoid, ActK::Softmax][t.pick(3)], bias: t.bool(), dropout: None });
@@ -127,6 +139,7 @@ fn decode(tape: &[u32], tier: Tier) -> Case {
         schedules,
         connects,
         eval_scale,
+        loops,
     }
 }
 
@@ -146,6 +159,10 @@ fn run_once(case: &Case, threads: usize, delay_seed: u32, decoy: bool, data: &(V
     for (a, b) in &case.connects {
         let (a, b) = (*a, *b);
         catch(std::panic::AssertUnwindSafe(|| net.connect(a, b)))?;
+    }
+    for (b, a, k) in &case.loops {
+        let (b, a, k) = (*b, *a, *k);
+        catch(std::panic::AssertUnwindSafe(|| net.loopback(b, a, k, std::sync::Arc::new(|x| 1.0 / x), false)))?;
     }
     let ps = seeded_params(&net, spec, case.wseed, 1, 0.8);
     apply_params(&mut net, &ps);
@@ -291,6 +308,9 @@ fn check(case: &Case, ev: &mut CaseEv) -> CheckResult {
     if !case.connects.is_empty() {
         ev.class("skip connections with a shared source");
     }
+    if !case.loops.is_empty() {
+        ev.class("loop connection over a dense layer with dropout");
+    }
     // one case in six (outputs without soft-max): one input of the stand-alone validate / predict_batch calls holds a
     // NaN ("missing value"): its loss is NaN, every other sample must still be scored the same way in every schedule
     let mut exv = ex.clone();
@@ -363,7 +383,7 @@ impl Prop for C05 {
         1 // the delay plan is process-global; schedules are run one after the other
     }
     fn rule(&self) -> String {
-        "tape-decoded network containing a convolution, optionally a spatial feedback block, a deconvolution and a max-pool, a dense layer, optionally a flat feedback block (with and without skips, 2-4 loops), optionally two more dense layers with skip connections from a shared source, and a final dense layer (linear / sigmoid / soft-max); evaluation inputs optionally scaled to 1e-39 (subnormal intermediates), in one case of six one input of the stand-alone validate / predict_batch calls holds a NaN; dropout on some layers; one of five optimizers; batch 2..12 (thorough 32), 8..40 (120) training samples, 65..260 (400) evaluation inputs, in one case of three 261..700 (1200) (more than one 64-chunk), non-dyadic data, 1-3 epochs with validation data. Schedules per case: 5 (thorough 10) draws from dedicated rayon pools with {2, 3, 5, 8, 16, 32, 48} threads, every second one with a tape-derived delay plan (0-200 us sleeps at the per-sample / per-prediction hooks), every third one on a pool whose threads first served a decoy network (same layer list and downstream shapes, other weights and inputs, first-layer geometry shifted by one padding step), plus a repetition of the 1-thread run. Oracle: to_bits equality of train / validation loss vectors, accuracies, all final weights, validate() and predict_batch() in order against the 1-thread run; every run builds a fresh network. Non-trivial: batch >= 4, > 64 evaluation inputs, >= 2 threads. Distinct = (architecture, batch, sizes, schedule list).".into()
+        "tape-decoded network containing a convolution, optionally a spatial feedback block, a deconvolution and a max-pool, a dense layer, optionally a flat feedback block (with and without skips, 2-4 loops), optionally two more dense layers with skip connections from a shared source or with a loop connection over the first of them (which then carries dropout), and a final dense layer (linear / sigmoid / soft-max); evaluation inputs optionally scaled to 1e-39 (subnormal intermediates), in one case of six one input of the stand-alone validate / predict_batch calls holds a NaN; dropout on some layers; one of five optimizers; batch 2..12 (thorough 32), 8..40 (120) training samples, 65..260 (400) evaluation inputs, in one case of three 261..700 (1200) (more than one 64-chunk), non-dyadic data, 1-3 epochs with validation data. Schedules per case: 5 (thorough 10) draws from dedicated rayon pools with {2, 3, 5, 8, 16, 32, 48} threads, every second one with a tape-derived delay plan (0-200 us sleeps at the per-sample / per-prediction hooks), every third one on a pool whose threads first served a decoy network (same layer list and downstream shapes, other weights and inputs, first-layer geometry shifted by one padding step), plus a repetition of the 1-thread run. Oracle: to_bits equality of train / validation loss vectors, accuracies, all final weights, validate() and predict_batch() in order against the 1-thread run; every run builds a fresh network. Non-trivial: batch >= 4, > 64 evaluation inputs, >= 2 threads. Distinct = (architecture, batch, sizes, schedule list).".into()
     }
     fn assumptions(&self) -> Vec<String> {
         vec!["rayon's work-stealing decisions are not owned by the harness: thread counts, repetitions and injected delays are explored, not interleavings; a pass means no dependence was observed".into()]
